@@ -214,3 +214,39 @@ ARM_SCRIPTS = {
         '%ssend(%s.tx, Ok(io_loop::ChannelMessage::Method(frame.Method.1)))' % (CS, _SLOT),
     ],
 }
+
+# C03: content-carrying methods start the channel's collector unconditionally with their own payload;
+# header/body frames feed it, and a completed message goes to exactly its addressee.
+CCOL = 'io_loop::content_collector::'
+
+
+def _start(meth, fnn):
+    return [slot('slot_get_mut'), '%sContentCollector::%s(%s.collector, %s)' % (CCOL, fnn, _SLOTM, payload('basic', meth))]
+
+
+def _content(variant, arg, step):
+    ch = 'frame.%s.0' % variant
+    sl = slot('slot_get_mut', ch)
+    coll = '%sContentCollector::%s(%s?.collector, %s)' % (CCOL, step, sl, arg)
+    res = coll + '?.Some.0'
+    some = 'case(%s? ~ Some(_)) > ' % coll
+    tag = res + '.Delivery.0.0'
+    get = 'std::collections::HashMap::get(%s?.consumers, %s)' % (sl, tag)
+    return [
+        sl,
+        coll,
+        some + 'case(%s ~ %sCollectorResult::Delivery((_, _))) > %s' % (res, CCOL, get),
+        some + 'case(%s ~ %sCollectorResult::Delivery((_, _))) > %ssend(<std::option::Option<T> as snafu::OptionExt<T>>::context(%s, errors::UnknownConsumerTagSnafu{channel_id: %s, consumer_tag: %s})?, consumer::ConsumerMessage::Delivery(%s.Delivery.0.1))'
+        % (res, CCOL, CS, get, ch, tag, res),
+        some + 'case(%s ~ %sCollectorResult::Return(_)) > %stry_send_return(%s?, %s.Return.0)' % (res, CCOL, CS, sl, res),
+        some + 'case(%s ~ %sCollectorResult::Get(_)) > %ssend(%s?.tx, Ok(io_loop::ChannelMessage::GetOk(Some(%s.Get.0))))' % (res, CCOL, CS, sl, res),
+    ]
+
+
+ARM_SCRIPTS.update({
+    ('Method', 'n', 'basic', 'Deliver'): _start('Deliver', 'collect_deliver'),
+    ('Method', 'n', 'basic', 'Return'): _start('Return', 'collect_return'),
+    ('Method', 'n', 'basic', 'GetOk'): _start('GetOk', 'collect_get'),
+    ('Header', 'n', '-', '-'): _content('Header', 'frame.Header.2', 'collect_header'),
+    ('Body', 'n', '-', '-'): _content('Body', 'frame.Body.1', 'collect_body'),
+})
